@@ -24,7 +24,8 @@ type c18Cell struct {
 	Creds  int  `json:"creds"` // 0 none, 1 user, 2 user:password
 	Cert   int  `json:"cert"`  // 0 valid, 1 other host, 2 untrusted CA
 	Host   int  `json:"host"`
-	Refuse int  `json:"proxy_refuses"` // 0 no, 1 status 407, 2 status 407 without reason phrase, 3 status 204 (a 2xx that is not 200), 4 status 302
+	TLSNil bool `json:"tls_client_config_nil"` // Dialer.TLSClientConfig == nil (system roots), after an earlier wss dial to another host
+	Refuse int  `json:"proxy_refuses"`         // 0 no, 1 status 407, 2 status 407 without reason phrase, 3 status 204 (a 2xx that is not 200), 4 status 302
 }
 
 var proxyNames = []string{"none", "http", "https", "socks5"}
@@ -82,6 +83,12 @@ func init() {
 							for h := 0; h < nh; h++ {
 								c.Host = h
 								c18Cells = append(c18Cells, c)
+								// the library itself does TLS to the backend: also with a nil TLSClientConfig
+								if wss && refuse == 0 && creds == 0 && cert < 2 && (proxy != 0 || hooks&4 == 0) && c.firstHopHook() != "" {
+									c2 := c
+									c2.TLSNil = true
+									c18Cells = append(c18Cells, c2)
+								}
 							}
 						}
 					}
@@ -167,6 +174,9 @@ func runC18(ctx *core.Ctx, out *core.Out) {
 			cert = pk.leaf(certName)
 		case 1:
 			cert = pk.leaf("other.example")
+			if cell.TLSNil {
+				cert = pk.leaf("warm.test") // the certificate of the host dialed just before
+			}
 		default:
 			cert = pk.otherCA.leaf(certName)
 		}
@@ -245,6 +255,29 @@ func runC18(ctx *core.Ctx, out *core.Out) {
 		hookMu.Unlock()
 	}
 	d := &ws.Dialer{TLSClientConfig: &tls.Config{RootCAs: pk.pool}, HandshakeTimeout: 20 * time.Second}
+	if cell.TLSNil {
+		if pk.systemRootFile == "" {
+			out.Inconcl("could not install the test CA as system root")
+			return
+		}
+		d.TLSClientConfig = nil
+		// history: an earlier wss dial of this process, to another host, with a nil TLSClientConfig too
+		warm, werr := newBackend(&tls.Config{Certificates: []tls.Certificate{pk.leaf("warm.test")}}, "127.0.0.1:0")
+		if werr == nil {
+			wd := &ws.Dialer{HandshakeTimeout: 20 * time.Second, NetDialContext: func(ctx context.Context, network, addr string) (net.Conn, error) {
+				return (&net.Dialer{}).DialContext(ctx, "tcp", warm.Addr())
+			}}
+			wc, _, e := wd.Dial("wss://warm.test/first", nil)
+			if e != nil {
+				warm.Close()
+				out.Inconcl("warm-up wss dial with nil TLSClientConfig failed (system root not honoured?): " + e.Error())
+				return
+			}
+			wc.Close()
+			warm.Close()
+			out.Count("dials_after_an_earlier_wss_dial_with_nil_tls_config", 1)
+		}
+	}
 	if cell.Hooks&1 != 0 {
 		d.NetDial = func(network, addr string) (net.Conn, error) {
 			rec("NetDial", network, addr)
